@@ -448,7 +448,15 @@ def files_registered(repo: Repo, rep):
     f = repo.func("_inline_snapshot.py::snapshot")
     cfg = cfg_of(f)
     adds = [n for n in cfg.live for c in node_calls(n) if isinstance(c.func, ast.Attribute) and c.func.attr == "add" and isinstance(c.func.value, ast.Attribute) and attr_chain(c.func.value) == ["state()", "files_with_snapshots"]]
-    stores = [n for n in cfg.live if n.kind == "stmt" and isinstance(n.ast, ast.Assign) and any(isinstance(t, ast.Subscript) and isinstance(t.value, ast.Attribute) and attr_chain(t.value) == ["state()", "snapshots"] for t in n.ast.targets)]
+    def _is_table(n, e):
+        if isinstance(e, ast.Attribute):
+            return attr_chain(e) == ["state()", "snapshots"]
+        if isinstance(e, ast.Name):
+            r_ = resolve_alias(cfg, n, e)
+            return isinstance(r_, ast.Attribute) and attr_chain(r_) == ["state()", "snapshots"]
+        return False
+
+    stores = [n for n in cfg.live if n.kind == "stmt" and isinstance(n.ast, ast.Assign) and any(isinstance(t, ast.Subscript) and _is_table(n, t.value) for t in n.ast.targets)]
     reevals = [n for n in cfg.live for c in node_calls(n) if isinstance(c.func, ast.Attribute) and c.func.attr == "_re_eval"]
     rep.floor("R-FILES-REGISTERED", "recording / re-evaluation sites in snapshot()", len(stores) + len(reevals), 2)
     if not adds:
